@@ -17,8 +17,11 @@ ParseKinds == {"argparse", "class", "function", "json_schema", "pydantic", "sqla
 EmitKinds == {"argparse", "class", "function", "json_schema", "pydantic", "sqlalchemy", "sqlalchemy_table", "sqlalchemy_hybrid"}
 SqlEmit == {"sqlalchemy", "sqlalchemy_table", "sqlalchemy_hybrid"}
 Tpls == {"suffix", "prefix"}                     \* "{name}Cfg" / "Gen{name}"
-Opts == [parse : ParseKinds, emit : EmitKinds, tpl : Tpls, infer_imports : BOOLEAN, prepend : BOOLEAN,
-         imports_from_file : BOOLEAN, out_present : BOOLEAN, entries : 1..3]
+\* mixed: under `--parse infer` the input module holds entries of DIFFERENT kinds (E1 a plain class, E2 a SQLAlchemy class,
+\* E3 a plain class again): each must be read with the parser of its own kind
+Opts == {o \in [parse : ParseKinds, emit : EmitKinds, tpl : Tpls, infer_imports : BOOLEAN, prepend : BOOLEAN,
+                imports_from_file : BOOLEAN, out_present : BOOLEAN, entries : 1..3, mixed : BOOLEAN] :
+           o.mixed => (o.parse = "infer" /\ o.entries >= 2)}
 
 Entries(o) == {"E1", "E2", "E3"} \cap (IF o.entries = 1 THEN {"E1"} ELSE IF o.entries = 2 THEN {"E1", "E2"} ELSE {"E1", "E2", "E3"})
 Named(o) == {<<o.tpl, e>> : e \in Entries(o)}
